@@ -57,7 +57,9 @@ func TestC16(t *testing.T) {
 	rec.Mandatory("ttl0_first", "ttl0_last", "expiry_minus1", "expiry_exact", "expiry_plus1", "failure_then_recovery", "cname_only_answer", "cache_hit", "refetch_after_expiry", "zone_mutated")
 	rapid.Check(t, func(t *rapid.T) {
 		z := dnsfx.NewZone()
-		now := time.Date(2030, 1, 1, 0, 0, 0, 0, time.UTC)
+		// the clock is not aligned to whole seconds (expiry arithmetic must not round)
+		frac := time.Duration(rapid.SampledFrom([]int{0, 1, 250, 499, 500, 501, 750, 999}).Draw(t, "clock_ms")) * time.Millisecond
+		now := time.Date(2030, 1, 1, 0, 0, 0, 0, time.UTC).Add(frac)
 		var clockMu sync.Mutex
 		clock := func() time.Time { clockMu.Lock(); defer clockMu.Unlock(); return now }
 		ech.SetTimeNowForVerif(clock)
@@ -296,22 +298,23 @@ func TestC16(t *testing.T) {
 					switch {
 					case kind <= 2 && len(exps) > 0:
 						e := exps[rapid.IntRange(0, len(exps)-1).Draw(t, "adv_entry")]
+						near := time.Duration(rapid.SampledFrom([]int{1000, 1000, 1, 400, 600}).Draw(t, "adv_near_ms")) * time.Millisecond
 						switch kind {
 						case 0:
-							d = e.Sub(now) - time.Second
+							d = e.Sub(now) - near
 							cl = append(cl, "expiry_minus1")
 						case 1:
 							d = e.Sub(now)
 							cl = append(cl, "expiry_exact")
 						default:
-							d = e.Sub(now) + time.Second
+							d = e.Sub(now) + near
 							cl = append(cl, "expiry_plus1")
 						}
 						if d < 0 {
 							d = 0
 						}
 					case kind == 3:
-						d = 0
+						d = time.Duration(rapid.SampledFrom([]int{0, 1, 499, 500, 999}).Draw(t, "adv_ms")) * time.Millisecond
 					case kind == 4:
 						d = time.Second
 					default:
